@@ -51,7 +51,11 @@ func runC12(c *Ctx) {
 		pos := w.instrPos(cs)
 		// the receiver may come out of a helper that does the find+delete (then the helper's
 		// returns that can produce it on this path are what the Delete must dominate)
-		recv, hrets, _ := w.originAt(cs.Common().Args[0], cs)
+		var recv ssa.Value = cs.Common().Args[0]
+		var hrets []*ssa.Return
+		if dc, _ := callOf(w.resolveLoad(recv)); dc == nil || dc.Call.StaticCallee() != find {
+			recv, hrets, _ = w.originAt(recv, cs)
+		}
 		fcv, fi := callOf(recv)
 		if fcv == nil || fcv.Call.StaticCallee() != find || fi != 0 {
 			c.Bad("C12.2", fname(fn), "WriteResult", pos, "the transaction completed here was not obtained from trMap.Find in this function: "+w.desc(cs.Common().Args[0]))
